@@ -51,8 +51,6 @@ Definition gen_ok (c : case) : bool :=
   && forallb (fun g => negb (match snd g with [] => true | _ => false end)) (k_groups c)
   && forallb (fun ch => negb (match ch with [] => true | _ => false end)) (k_chunks c).
 
-Definition labelled (G : list bname) (asg : list ids) : list (bname * Z) :=
-  flat_map (fun '(l, i) => map (pair l) i) (combine G asg).
 Definition sizes_of (G : list bname) : list (bname * Z) := combine G (arange (len G)).
 
 (* ---------- spec_ok ---------- *)
